@@ -7,6 +7,8 @@ import random
 from harness.core import Case
 from harness import clientlib as cl
 
+WIDE = 200000        # thorough tier: histories of the wide correspondence stream (widegen.py), judged by the model and the generic rule
+WIDE_QUICK = 2000
 PROP = 'C05'
 EXHAUSTIVE = False
 RULE = ('grid: request_timeout {None,1,2,5 s} x p2 x p2* x per-call timeout {None,0,0.75 s} x callback; k = 0..3 pending '
